@@ -412,7 +412,7 @@ def gen_pair(rng):
 
 
 def generate(rng, tier, scale=1):
-    nw, nm, nx, npair = (150, 330, 170, 260) if tier == "quick" else (1200, 3600, 1800, 2500)
+    nw, nm, nx, npair = (250, 550, 300, 400) if tier == "quick" else (2500, 7000, 3500, 5000)
     nw, nm, nx, npair = nw * scale, nm * scale, nx * scale, npair * scale
     cs = []
     for _ in range(nw):
